@@ -43,6 +43,7 @@ fn run_hist_perturbed(h: &History, every: u8, exp: u8, ctx: &mut Ctx) -> CaseRes
 
 fn run_hist(h: &History, ctx: &mut Ctx) -> CaseResult {
     let mut st = init(h)?;
+    ctx.class_if(h.shift > 0, "data_far_from_origin");
     let mut total = CacheStats::default();
     let mut structural_after_witness = 0;
     let mut had_witness = false;
@@ -151,7 +152,7 @@ impl Property for C05 {
         "C05"
     }
     fn rule(&self) -> String {
-        "(a) operation histories as in C04 (compose pruned/unpruned, apply_func, arithmetic, reduce, repeated elimination, forwarding): after every step, every stored witness of every node is converted exactly and tested against the node's exact path polytope rebuilt from raw parent links (tolerance 1e-8 + float rounding), and every node marked Infeasible must have a region without a ball of radius 1e-6; (b) direct calls of mirror_points on generated polytopes (zero rows, thin, empty, unbounded) and start points: returned columns must lie in the polytope within the same tolerance, iteration count < limit. Non-trivial = (a) a witness was checked on a node that has since become a decision and a structural op followed a witness, (b) >= 2 rows in dim >= 2; distinct = distinct serialised cases".into()
+        "(a) operation histories as in C04 (compose pruned/unpruned, apply_func, arithmetic, reduce, repeated elimination, forwarding): after every step, every stored witness of every node is converted exactly and tested against the node's exact path polytope rebuilt from raw parent links (tolerance 1e-8 + float rounding), and every node marked Infeasible must have a region without a ball of radius 1e-6; a third of the histories run with perturbed LP answers (fault hook), and a third end with remove_axes on an arbitrary mask followed by an elimination, caches audited after each; (b) direct calls of mirror_points on generated polytopes (zero rows, thin, empty, unbounded) and start points: returned columns must lie in the polytope within the same tolerance, iteration count < limit. Non-trivial = (a) a witness was checked on a node that has since become a decision and a structural op followed a witness, (b) >= 2 rows in dim >= 2; distinct = distinct serialised cases".into()
     }
     fn assumptions(&self) -> Vec<String> {
         vec!["containment tolerance 1e-8 on the raw distance (documented for contains()) plus 1e-12 relative for the rounding of a.w".into(), "a plain Feasible mark carries no obligation (it can only cause less pruning)".into()]
